@@ -83,6 +83,22 @@ def _run(ix, R):
         if w is None or not fl.tab.equal(w.value, spec(fl, 'wnwidth_to_wlwidth(self.wavelengthGrid, self._bin_widths)')) \
                 or fl.events.index(w) < fl.events.index(pr):
             why.append('wavenumber widths = %s' % (fmt(fl, w.value) if w else None))
+        # nothing read from the object before the sort / the derivation is used after them: a local bound to
+        # self.<property> keeps the value of the table in file order
+        for a_ in fl.of('assign'):
+            if not (isinstance(a_.node, ast.Assign) and any(
+                    isinstance(x, ast.Attribute) and isinstance(x.value, ast.Name) and x.value.id == 'self'
+                    for x in ast.walk(a_.node.value))):
+                continue
+            later = [c for c in (so, pr) if fl.events.index(c) > fl.events.index(a_)]
+            if not later:
+                continue
+            last = max(fl.events.index(c) for c in later)
+            used = [n for n in ast.walk(f.node) if isinstance(n, ast.Name) and n.id == a_.name and isinstance(n.ctx, ast.Load)
+                    and n.lineno > later[-1].node.lineno]
+            if used:
+                why.append('%s = %s is read before %s() and used after it (line %d): it still holds the table in file order' % (
+                    a_.name, unparse(a_.node.value)[:50], later[-1].name, used[0].lineno))
         R.check('1.order', 'DOM', site,
                 'constructor: store table, sort rows, derive widths/edges, then convert widths to wavenumber at the bin centre',
                 not why, key='; '.join(why), detail='; '.join(why), loc=f.loc())
